@@ -1,10 +1,12 @@
 /-
 C09 — "Null builds run nothing; a command re-runs exactly when its definition changed."
 Aggregate of the two halves: the signature recipes (Props/C09.lean for the shell tool, Props/C09Classes.lean
-for every other class with a regenerated recipe: equal signatures ⇔ equal signature-relevant definitions) and the history half on the abstract engine (Props/C02.lean:
+for every other class with a regenerated recipe: equal signatures ⇔ equal signature-relevant definitions;
+Props/C09Attrs.lean: from the keys of the definition to the hashed members, through the generated `configure*` tables) and the history half on the abstract engine (Props/C02.lean:
 `C02_null_build_after_build`; Props/C01Gen.lean: `C09_changed_definition_reruns`,
 `C09_changed_definition_signature_differs`, `C09_unchanged_definition_needs_other_reason`).
 -/
 import LLBuild.Props.C09
 import LLBuild.Props.C09Classes
+import LLBuild.Props.C09Attrs
 import LLBuild.Props.C01Gen
